@@ -403,7 +403,7 @@ theorem elementOk_keep (env : Env) (x x' : Tree) (name : Nat) (W W' : List (Nat 
     (hattrs : x'.attrs = x.attrs) (hn : x.value.isNormal = true) (hI : DdInv env x W W')
     (h3 : DdInv3 W W') (h : elementOk env W x name = true) : elementOk env W' x' name = true := by
   simp only [elementOk, Bool.and_eq_true, Bool.not_eq_true', Bool.and_eq_false_iff,
-    elementFullname_ok, attributeFullname_ok, List.all_eq_true, Bool.or_eq_true, beq_iff_eq,
+    sc_elementFullname_ok, sc_attributeFullname_ok, List.all_eq_true, Bool.or_eq_true, beq_iff_eq,
     beq_eq_false_iff_ne, ne_eq, hattrs] at h ⊢
   obtain ⟨⟨hd, he⟩, ha⟩ := h
   refine ⟨⟨?_, ?_⟩, ?_⟩
